@@ -102,7 +102,7 @@ def run(ctx):
             ctx.count("skipped-in-quick-tier:large-testdata-file")
             continue
         cases.append(("testdata:" + rel, open(p).read(), rel, None, None, {}))
-    n_base = 40 if ctx.thorough() else 5
+    n_base = 40 if ctx.thorough() else 4
     for i in range(n_base):
         base = gt.Base(ctx.rng, depth=ctx.rng.choice([1, 2, 2, 3]))
         c = base.case()
@@ -123,7 +123,7 @@ def run(ctx):
         fut_table = tpool.submit(r.run, [("tt", "true", None)])
         pc = [tx.probe_case(fn, names, res) + ((fn, names, res),) for fn, names, res in probes
               if not res.startswith("CRASH")]
-        r = fw.CoqCases(ctx, "probes", hdr, "(run_probe T_run)", "tres_eqb", "(fn * list (shape * ty))", "tres", shard=150)
+        r = fw.CoqCases(ctx, "probes", hdr, "(run_probe T_run)", "tres_eqb", "(fn * list (shape * ty))", "tres", shard=300)
         badp = r.run(pc)
         same = not fut_table.result()
         ctx.obligation("regenerated sig_table = Types.Model.impl_table", same)
@@ -197,8 +197,8 @@ def run(ctx):
             coq_plain.append((an["coq"], "(CExpectV %s)" % ev, dict(label=label, text=text, rule=None, an=an)))
 
     in_ty = "(list ty * list ty * list item)"
-    r1 = fw.CoqCases(ctx, "gen", hdr, "(run_case T_run)", "cout_agrees", in_ty, "cout", shard=14)
-    r2 = fw.CoqCases(ctx, "corpus", hdr, "(run_case T_run)", "cout_agrees", in_ty, "cout", shard=3)
+    r1 = fw.CoqCases(ctx, "gen", hdr, "(run_case T_run)", "cout_agrees", in_ty, "cout", shard=20)
+    r2 = fw.CoqCases(ctx, "corpus", hdr, "(run_case T_run)", "cout_agrees", in_ty, "cout", shard=5)
     with ThreadPoolExecutor(2) as tp:
         f1 = tp.submit(r1.run, coq_full) if coq_full else None
         f2 = tp.submit(r2.run, coq_plain) if coq_plain else None
